@@ -61,6 +61,10 @@ func (m *MessageCopyFromGenerator) GenerateFields(g *j.Group) {
 	}
 
 	for _, f := range m.Fields {
+		// The artificial placeholder of a message without fields has no counterpart in the Go struct
+		if f.IsPlaceholder {
+			continue
+		}
 		g.Add(NewFieldCopyFromGenerator(f, m.i).Generate())
 	}
 }
